@@ -20,6 +20,7 @@ class IdMW(Middleware):
 
     def request(self, next, request):
         request.environ['sim.ids'].append(getattr(request, 'request_id', None))
+        request.environ['sim.guids'].append(getattr(request, 'request_guid', None))
         request.environ['sim.req_objs'].append(request)
         return next()
 
